@@ -60,6 +60,9 @@ PLAIN = [
     ("mttkrp", {"T": ["I", "K", "L"], "B": ["K", "J"], "C": ["L", "J"], "Z": ["I", "J"]},
      ["Z[i, j] = T[i, k, l] * B[k, j] * C[l, j]"]),
     ("outtr", {"A": ["K", "M"], "B": ["K", "N"], "Z": ["N", "M"]}, ["Z[n, m] = A[k, m] * B[k, n]"]),
+    # rank names whose concatenation is ambiguous (A_MMM is the name of both [M, MM] and [MM, M])
+    ("ambig", {"A": ["M", "MM"], "Z": ["MM"]}, ["Z[mm] = A[m, mm]"]),
+    ("ambig2", {"A": ["J", "JJ"], "B": ["JJ", "J"], "Z": ["J", "JJ"]}, ["Z[j, jj] = A[j, jj] * B[jj, j]"]),
     # output-only ranks (explicit shape= on the output constructor, iteration over the rank's extent)
     ("outonly", {"A": ["K", "M"], "Z": ["M", "N"]}, ["Z[m, n] = A[k, m]"]),
     ("outonly2", {"A": ["M"], "B": ["M"], "Z": ["N", "M", "P"]}, ["Z[n, m, p] = A[m] * B[m]"]),
@@ -101,6 +104,8 @@ def plain_tags(name, exprs):
     """static features of the expression that known-finding signatures may refer to"""
     from .dense import parse_einsum
     tags = {"family": "plain", "template": name}
+    if name.startswith("ambig"):
+        tags["ambiguous_rank_names"] = True
     for e in exprs:
         _, terms = parse_einsum(e)
         if len(terms) > 1 and any(kind == "take" and facs[sel][0] == "var" for kind, facs, sel in terms):
@@ -477,6 +482,10 @@ def f_occ(tier="quick", seed=0):
          {"(K, M, N)": ["flatten()"]}, ["KMN"], {"K": 2, "M": 2, "N": 2})
     core("flat3-out2-lookup-last", {"A": ["M", "N", "K"], "B": ["K"], "Z": ["M", "N"]}, ["Z[m, n] = A[m, n, k] * B[k]"],
          {"(M, N, K)": ["flatten()"], "MNK": ["uniform_occupancy(A.3)"]}, ["MNK1", "MNK0"], {"K": 2, "M": 2, "N": 2})
+    core("flat3-middle-lookup", {"A": ["K", "M", "N"], "B": ["K", "N"], "Z": ["M"]}, ["Z[m] = A[k, m, n] * B[k, n]"],
+         {"(K, M, N)": ["flatten()"], "KMN": ["uniform_occupancy(A.4)"]}, ["KMN1", "KMN0"], {"K": 2, "M": 2, "N": 2})
+    core("flat3-first-lookup", {"A": ["K", "M", "N"], "B": ["M", "N"], "Z": ["K"]}, ["Z[k] = A[k, m, n] * B[m, n]"],
+         {"(K, M, N)": ["flatten()"], "KMN": ["uniform_occupancy(A.3)"]}, ["KMN1", "KMN0"], {"K": 2, "M": 2, "N": 2})
     core("flat-out-adjacent", {"A": ["K", "M", "N"], "B": ["K", "M", "N"], "Z": ["M", "N"]}, ["Z[m, n] = A[k, m, n] * B[k, m, n]"],
          {"(M, N)": ["flatten()"]}, ["K", "MN"], {"K": 2, "M": 2, "N": 2})
     gd = {"A": ["K", "M"], "B": ["K", "N"], "Z": ["M", "N"]}
@@ -520,7 +529,11 @@ AFFINE = [
     ("stride3", {"F": ["S"], "I": ["W"], "O": ["Q"]}, "O[q] = I[3*q + s] * F[s]", (3, 1)),
     ("sd22", {"F": ["S"], "I": ["W"], "O": ["Q"]}, "O[q] = I[2*q + 2*s] * F[s]", (2, 2)),
     ("sd24", {"F": ["S"], "I": ["W"], "O": ["Q"]}, "O[q] = I[2*q + 4*s] * F[s]", (2, 4)),
+    # coefficients that are not powers of two: the projections divide by 3 in IEEE doubles (1 / 3 * 5 - 2 / 3 is not 1)
+    ("dilate3", {"F": ["S"], "I": ["W"], "O": ["Q"]}, "O[q] = I[q + 3*s] * F[s]", (1, 3)),
+    ("sd23", {"F": ["S"], "I": ["W"], "O": ["Q"]}, "O[q] = I[2*q + 3*s] * F[s]", (2, 3)),
 ]
+NONDYADIC = ("stride3", "dilate3", "sd23")
 
 
 def f_affine(tier="quick", seed=0):
@@ -529,10 +542,10 @@ def f_affine(tier="quick", seed=0):
     Ss = (2, 3) if tier == "quick" else (1, 2, 3)
     sizes = (2,) if tier == "quick" else (1, 2, 3)
     for name, decl, expr, (cq, cs) in AFFINE:
-        if tier == "quick" and name in ("stride3",):
-            continue
         if name == "sd24" and tier == "quick":
             Qs_, Ss_ = (3,), (2,)
+        elif name in NONDYADIC and tier == "quick":
+            Qs_, Ss_ = (4,), (3,)
         else:
             Qs_, Ss_ = Qs, Ss
         for Q in Qs_:
@@ -540,6 +553,8 @@ def f_affine(tier="quick", seed=0):
                 W = cq * (Q - 1) + cs * (S - 1) + 1
                 ext = {"Q": Q, "S": S, "W": W}
                 tags = {"family": "affine", "template": name, "follow": False}
+                if name in NONDYADIC:
+                    tags["nondyadic"] = True
                 for lo in (["Q", "S"], ["S", "Q"], ["W", "Q"], ["Q", "W"], ["W", "S"], ["S", "W"]):
                     specs.append({"name": "affine/%s/Q%dS%d/lo=%s" % (name, Q, S, ",".join(lo)), "decl": decl,
                                   "exprs": [expr], "mapping": {"loop-order": {"O": lo}}, "extents": ext, "tags": tags})
@@ -558,7 +573,7 @@ def f_affine(tier="quick", seed=0):
                             los = (["Q2", "Q1", "S", "Q0"], ["Q2", "Q1", "W0", "Q0"], ["Q2", "Q1", "W0", "S"],
                                    ["Q2", "S", "Q1", "Q0"], ["Q2", "Q1", "Q0", "S"])
                         t2 = dict(tags, follow=True, aligned=(Q % sz == 0), psize=sz, levels=lv,
-                                  outer_parts=("multi" if lv == 2 and Q > 2 * sz else "single"))
+                                  outer_parts=("multi" if lv == 2 and max(Q, -(-W // cq)) > 2 * sz else "single"))
                         for lo in los:
                             specs.append({"name": "affine/%s/Q%dS%d/%s/lo=%s" % (name, Q, S, lab, ",".join(lo)),
                                           "decl": decl, "exprs": [expr],
@@ -573,8 +588,28 @@ def f_affine(tier="quick", seed=0):
                               "mapping": {"partitioning": {"O": {"Q": ["uniform_shape(8)", "uniform_shape(2)"], "W": ["follow(Q)"]}},
                                           "loop-order": {"O": lo}},
                               "extents": {"Q": Q, "S": S, "W": W},
-                              "tags": {"family": "affine", "template": name, "follow": True, "levels": 2, "outer_parts": "single",
+                              "tags": {"family": "affine", "template": name, "follow": True, "levels": 2,
+                                       "outer_parts": "multi" if -(-W // cq) > 8 else "single",
                                        "aligned": Q % 2 == 0, "psize": 2}})
+    # two operands that hold the same rank with DIFFERENT accesses (the pinned compiler refuses: "Multiple expressions match")
+    for lo in (["Q", "S"], ["S", "Q"], ["W", "Q"], ["Q", "W"]):
+        specs.append({"name": "affine/same-rank-two-accesses/lo=%s" % ",".join(lo), "decl": {"I": ["W"], "J": ["W"], "F": ["S"], "O": ["Q"]},
+                      "exprs": ["O[q] = I[q + s] * J[q + 2*s] * F[s]"], "mapping": {"loop-order": {"O": lo}},
+                      "extents": {"Q": 3, "S": 2, "W": 5}, "tags": {"family": "affine", "template": "same-rank-two-accesses", "follow": False}})
+    # the output rank (with its follower) AND the filter rank shape-partitioned: two partitioned ranks in one index expression
+    for name, decl, expr, (cq, cs) in AFFINE[:2]:
+        for Q, S in (((4, 3),) if tier == "quick" else ((4, 3), (4, 4), (6, 3))):
+            W = cq * (Q - 1) + cs * (S - 1) + 1
+            for lo, legal in ((["S1", "Q1", "S0", "Q0"], True), (["Q1", "S1", "S0", "Q0"], True), (["S1", "S0", "Q1", "Q0"], True),
+                              (["Q1", "S1", "Q0", "S0"], False)):
+                t = {"family": "affine", "template": name + "-QS", "follow": True, "levels": 1, "aligned": True, "psize": 2,
+                     "outer_parts": "single"}
+                if legal:
+                    t["legal"] = True
+                specs.append({"name": "affine/%s/Q%dS%d/Q:u2+S:u2/lo=%s" % (name, Q, S, ",".join(lo)), "decl": decl, "exprs": [expr],
+                              "mapping": {"partitioning": {"O": {"Q": ["uniform_shape(2)"], "W": ["follow(Q)"], "S": ["uniform_shape(2)"]}},
+                                          "loop-order": {"O": lo}},
+                              "extents": {"Q": Q, "S": S, "W": W}, "tags": t})
     # two followers of the partitioned output rank with different accesses; two operands projected onto the output rank
     d2f = {"I": ["W"], "K": ["V"], "F": ["S"], "O": ["Q"]}
     for Q, S in (((4, 2),) if tier == "quick" else ((4, 2), (4, 3), (6, 2))):
@@ -821,6 +856,9 @@ def _st_bases():
          {"K": 2, "M": 4, "N": 2}),
         ("gemm-occ2-K", g, ge, {"Z": {"K": ["uniform_occupancy(A.3)", "uniform_occupancy(A.2)"]}}, ["K2", "K1", "M", "N", "K0"],
          {"K": 4, "M": 2, "N": 2}),
+        # a static split followed by two occupancy splits (intermediate ranks K2I and K1I)
+        ("gemm-shape+occ2-K", g, ge, {"Z": {"K": ["uniform_shape(4)", "uniform_occupancy(A.2)", "uniform_occupancy(A.1)"]}},
+         ["K3", "K2", "M", "K1", "N", "K0"], {"K": 5, "M": 2, "N": 1}),
         # loops over a flattened rank with two co-iterated inputs (payload tuples whose first and last members are tuples)
         ("elem-flat", {"A": ["M", "N"], "B": ["M", "N"], "Z": ["M", "N"]}, ["Z[m, n] = A[m, n] * B[m, n]"],
          {"Z": {"(M, N)": ["flatten()"]}}, ["MN"], {"M": 2, "N": 2}),
@@ -901,7 +939,7 @@ def primes_everywhere(arch):
     return arch
 
 
-def mini_metrics_yaml(loop, isect, style, ro, lead="A", levels=None, names=("A", "B"), base=None, iranks=None):
+def mini_metrics_yaml(loop, isect, style, ro, lead="A", levels=None, names=("A", "B"), base=None, iranks=None, buf_by_rank=False):
     """a small accelerator around Z[m,n] = A[k,m] * B[k,n]; tensor ranks as iterated (loop order, partition levels)"""
     levels = levels or {}
 
@@ -939,7 +977,14 @@ def mini_metrics_yaml(loop, isect, style, ro, lead="A", levels=None, names=("A",
     y += mem(nA, ranks["A"]) + mem(nB, ranks["B"]) + mem("Z", ranks["Z"])
     y += "  - component: Buf\n    bindings:\n"
     ev = "      evict-on: root\n      style: %s\n" % style
-    if style == "lazy":
+    if style == "lazy" and buf_by_rank:
+        # every rank of A and Z in the buffet, written rank by rank: the bindings of one tensor are not adjacent
+        for i in range(max(len(ranks["A"]), len(ranks["Z"]))):
+            if i < len(ranks["A"]):
+                y += mem(nA, [ranks["A"][i]], ev)
+            if i < len(ranks["Z"]):
+                y += mem("Z", [ranks["Z"][i]], ev)
+    elif style == "lazy":
         y += mem(nA, ranks["A"][-1:], ev) + mem("Z", ranks["Z"][-1:], ev)
     else:
         ev = "      evict-on: %s\n      style: eager\n" % loop[0]
@@ -957,7 +1002,7 @@ def mini_metrics_yaml(loop, isect, style, ro, lead="A", levels=None, names=("A",
     return y
 
 
-def cascade_metrics_spec(muls, name, outs=("T", "U", "Z"), seq=None, host=None, config_last=False, isect=None, bind_order=None):
+def cascade_metrics_spec(muls, name, outs=("T", "U", "Z"), seq=None, host=None, config_last=False, isect=None, bind_order=None, twin=None, space=None):
     """three chained element-wise Einsums on one accelerator; muls = which multiplier each Einsum is bound to;
     outs = names of the three outputs (program order); seq = Einsums (by position) that also bind the sequencer"""
     ranks = ["M", "N"]
@@ -980,6 +1025,13 @@ def cascade_metrics_spec(muls, name, outs=("T", "U", "Z"), seq=None, host=None, 
     if isect is not None:
         # one intersection unit, bound to a different rank in different Einsums (isect: position -> rank)
         y += "      - name: Isect\n        class: Intersector\n        attributes:\n          type: two-finger\n"
+    if twin is not None:
+        # a second configuration that declares the SAME component names with other parameters (positions in twin run on it)
+        y += ("  Acc2:\n  - name: System\n    attributes:\n      clock_frequency: 103\n    local:\n"
+              "    - name: Mem\n      class: DRAM\n      attributes:\n        bandwidth: 223\n    subtree:\n"
+              "    - name: PE[0..4]\n      local:\n")
+        for i in range(3):
+            y += "      - name: Mul%d\n        class: compute\n        attributes:\n          type: mul\n" % i
     if host is not None:
         # a second configuration on which an Einsum runs with nothing bound
         y += ("  Host:\n  - name: System\n    attributes:\n      clock_frequency: 103\n    local:\n"
@@ -994,7 +1046,7 @@ def cascade_metrics_spec(muls, name, outs=("T", "U", "Z"), seq=None, host=None, 
         if host is not None and pos in host:
             y += "  %s:\n  - config: Host\n    prefix: tmp/%s\n" % (e, e)
             continue
-        cfg = "  - config: Acc\n    prefix: tmp/%s\n" % e
+        cfg = "  - config: %s\n    prefix: tmp/%s\n" % ("Acc2" if twin is not None and pos in twin else "Acc", e)
         y += "  %s:\n" % e
         if not config_last:
             y += cfg
@@ -1016,6 +1068,11 @@ def cascade_metrics_spec(muls, name, outs=("T", "U", "Z"), seq=None, host=None, 
     exprs = ["%s[m, n] = A[m, n] * B[m, n]" % o0, "%s[m, n] = %s[m, n] * C[m, n]" % (o1, o0), "%s[m, n] = %s[m, n] * D[m, n]" % (o2, o1)]
     lo = {e: ["M", "N"] for e in (o0, o1, o2)}
     st = {e: {"space": [], "time": ["M", "N"]} for e in (o0, o1, o2)}
+    if space is not None:
+        # spatial ranks per position, written in the given order (which need not be the loop order)
+        for pos, e in enumerate((o0, o1, o2)):
+            sp = list(space.get(pos, []))
+            st[e] = {"space": sp, "time": [r for r in ["M", "N"] if r not in sp]}
     return {"name": name, "decl": decl, "exprs": exprs, "mapping": {"loop-order": lo, "spacetime": st},
             "extents": {"M": 2, "N": 2}, "sizes": {}, "arch": secs["architecture"], "bindings": secs["bindings"], "format": secs["format"],
             "tags": {"family": "metrics", "template": "cascade3", "leader_first": True, "legal": True}}
@@ -1052,6 +1109,19 @@ def reorder_bindings(text, mode):
             comps = comps[1:] + comps[:1]
         elif mode == "reverse-bindings":
             comps = [dict(c, bindings=list(reversed(c["bindings"]))) for c in comps]
+        elif mode == "interleave-bindings":
+            # round-robin over the tensors a component binds: the bindings of one tensor are no longer adjacent
+            def rr(bs):
+                groups = {}
+                for b in bs:
+                    groups.setdefault(str(b.get("tensor", b.get("op", b.get("rank")))), []).append(b)
+                res = []
+                while any(groups.values()):
+                    for k in list(groups):
+                        if groups[k]:
+                            res.append(groups[k].pop(0))
+                return res
+            comps = [dict(c, bindings=rr(c["bindings"])) for c in comps]
         elif mode == "config-last":
             out[einsum] = comps + cfg
             continue
@@ -1065,7 +1135,7 @@ def f_metrics(tier="quick", seed=0):
     from . import spec as S
     specs = []
     for s in integ.integration_specs(metrics_only=True):
-        for mode in ("reverse-components", "rotate-components", "reverse-bindings", "config-last"):
+        for mode in ("reverse-components", "rotate-components", "reverse-bindings", "config-last", "interleave-bindings"):
             try:
                 specs.append(dict(s, name=s["name"] + "/" + mode, bindings=reorder_bindings(s["bindings"], mode),
                                   tags={"family": "metrics", "template": s["name"], "leader_first": True}))
@@ -1170,6 +1240,11 @@ def f_metrics(tier="quick", seed=0):
             specs.append(cascade_metrics_spec((0, 1, 2), "metrics/cascade3/host=%d/bindings-written=%s" % (hs[0], "".join(map(str, bo))),
                                               host=hs, bind_order=bo))
     specs.append(cascade_metrics_spec((0, 1, 0), "metrics/cascade3/mul=010/bindings-written=201", bind_order=(2, 0, 1)))
+    for lab, sp in (("NM-N-N", {0: ["N", "M"], 1: ["N"], 2: ["N"]}), ("N-NM-N", {0: ["N"], 1: ["N", "M"], 2: ["N"]}),
+                    ("MN-M-N", {0: ["M", "N"], 1: ["M"], 2: ["N"]}), ("NM-M-MN", {0: ["N", "M"], 1: ["M"], 2: ["M", "N"]})):
+        specs.append(cascade_metrics_spec((0, 1, 2), "metrics/cascade3/space=%s" % lab, space=sp))
+    for tw in ((2,), (0,), (1, 2), (0, 1, 2)):
+        specs.append(cascade_metrics_spec((0, 1, 2), "metrics/cascade3/twin-config=%s" % "".join(map(str, tw)), twin=tw))
     # the config entry listed after the component entries
     specs.append(cascade_metrics_spec((0, 1, 0), "metrics/cascade3/config-last/mul=010", config_last=True))
     specs.append(cascade_metrics_spec((0, 0, 0), "metrics/cascade3/config-last/mul=000", config_last=True))
@@ -1245,6 +1320,32 @@ def f_metrics(tier="quick", seed=0):
         return {"name": "metrics/merger/" + label, "decl": d, "exprs": ex, "mapping": m, "extents": ext, "sizes": {},
                 "arch": secs["architecture"], "bindings": secs["bindings"], "format": secs["format"],
                 "tags": {"family": "metrics", "template": "merger", "leader_first": True, "legal": True}}
+    def two_mergers(order):
+        """two hardware mergers in one Einsum, each sorting a different input"""
+        d = {"A": ["K", "M"], "T": ["M", "K", "N"], "Z": ["M", "N"]}
+        ex = ["Z[m, n] = T[m, k, n] * A[k, m]"]
+        def fmt(t, ranks):
+            yy = "  %s:\n    default:\n      rank-order: [%s]\n" % (t, ", ".join(ranks))
+            for r in ranks:
+                yy += "      %s:\n        format: C\n        cbits: 32\n        pbits: 64\n" % r
+            return yy
+        y = "format:\n" + fmt("Z", ["M", "N"])
+        y += ("architecture:\n  Acc:\n  - name: System\n    attributes:\n      clock_frequency: 101\n    local:\n"
+              "    - name: Mem\n      class: DRAM\n      attributes:\n        bandwidth: 211\n")
+        for nm in ("SortT", "SortA"):
+            y += ("    - name: %s\n      class: Merger\n      attributes:\n        inputs: 16\n        comparator_radix: 16\n"
+                  "        outputs: 1\n        order: fifo\n        reduce: False\n" % nm)
+        sT = "  - component: SortT\n    bindings:\n    - tensor: T\n      init-ranks: [M, K, N]\n      final-ranks: [M, N, K]\n"
+        sA = "  - component: SortA\n    bindings:\n    - tensor: A\n      init-ranks: [K, M]\n      final-ranks: [M, K]\n"
+        y += "bindings:\n  Z:\n  - config: Acc\n    prefix: tmp/Z\n" + (sT + sA if order == "TA" else sA + sT)
+        secs = S.split_sections(y)
+        lo = ["M", "N", "K"]
+        return {"name": "metrics/merger/two-mergers-%s" % order, "decl": d, "exprs": ex,
+                "mapping": {"loop-order": {"Z": lo}, "spacetime": {"Z": {"space": [], "time": lo}}},
+                "extents": {"K": 2, "M": 2, "N": 2}, "sizes": {}, "arch": secs["architecture"], "bindings": secs["bindings"],
+                "format": secs["format"], "tags": {"family": "metrics", "template": "merger", "leader_first": True, "legal": True}}
+    specs.append(two_mergers("TA"))
+    specs.append(two_mergers("AT"))
     specs.append(merger_spec("plain", decl, exprs, None, ["M", "K", "N"], ["M", "K"], ["K", "M"], ["M", "K"], {"K": 3, "M": 2, "N": 2}))
     specs.append(merger_spec("occ", decl, exprs, {"K": ["uniform_occupancy(A.2)"]}, ["K1", "M", "N", "K0"], ["K1", "M", "K0"],
                              ["K1", "K0", "M"], ["K1", "M", "K0"], {"K": 3, "M": 2, "N": 2}))
@@ -1252,6 +1353,30 @@ def f_metrics(tier="quick", seed=0):
                              ["K1", "K0", "M"], ["M", "K1", "K0"], {"K": 3, "M": 2, "N": 2}))
     specs.append(merger_spec("flat", {"A": ["N", "K", "M"], "Z": ["N"]}, ["Z[n] = A[n, k, m]"], {"(M, K)": ["flatten()"]}, ["N", "MK"],
                              ["N", "MK"], ["MK", "N"], ["N", "MK"], {"K": 2, "M": 2, "N": 2}))
+    # the buffet binds every rank of A and Z, listed rank by rank (interleaved tensors)
+    for lo in (["M", "K", "N"], ["K", "M", "N"], ["N", "K", "M"]):
+        for isect in (None, "two-finger"):
+            y = mini_metrics_yaml(lo, isect, "lazy", {}, "A", buf_by_rank=True)
+            secs = S.split_sections(y)
+            specs.append({"name": "metrics/mini-byrank/lo=%s/%s" % (",".join(lo), isect), "decl": decl, "exprs": exprs,
+                          "mapping": {"loop-order": {"Z": lo}, "spacetime": {"Z": {"space": [], "time": lo}}},
+                          "extents": {"K": 3, "M": 2, "N": 2}, "sizes": {}, "arch": secs["architecture"], "bindings": secs["bindings"],
+                          "format": secs["format"], "tags": {"family": "metrics", "template": "mini-byrank", "leader_first": True, "legal": True}})
+    # an output that holds a flattened rank, compiled with an architecture (explicit shape= of the output)
+    yfo = ("format:\n  A:\n    default:\n      rank-order: [M, N]\n      M:\n        format: C\n        cbits: 32\n        pbits: 64\n"
+           "      N:\n        format: C\n        cbits: 32\n        pbits: 64\n"
+           "architecture:\n  Acc:\n  - name: System\n    attributes:\n      clock_frequency: 101\n    local:\n"
+           "    - name: Mem\n      class: DRAM\n      attributes:\n        bandwidth: 211\n"
+           "bindings:\n  Z:\n  - config: Acc\n    prefix: tmp/Z\n")
+    sfo = S.split_sections(yfo)
+    for nm, d, ex, lo in (("copy", {"A": ["M", "N"], "Z": ["M", "N"]}, ["Z[m, n] = A[m, n]"], ["MN"]),
+                          ("elem", {"A": ["M", "N"], "B": ["M", "N"], "Z": ["M", "N"]}, ["Z[m, n] = A[m, n] * B[m, n]"], ["MN"]),
+                          ("reduce", {"A": ["K", "M", "N"], "Z": ["M", "N"]}, ["Z[m, n] = A[k, m, n]"], ["K", "MN"])):
+        specs.append({"name": "metrics/flat-out/%s" % nm, "decl": d, "exprs": ex,
+                      "mapping": {"partitioning": {"Z": {"(M, N)": ["flatten()"]}}, "loop-order": {"Z": lo},
+                                  "spacetime": {"Z": {"space": [], "time": lo}}},
+                      "extents": {"K": 2, "M": 2, "N": 2}, "sizes": {}, "arch": sfo["architecture"], "bindings": sfo["bindings"],
+                      "format": sfo["format"], "tags": {"family": "metrics", "template": "flat-out", "leader_first": True}})
     # three bound memory levels (two distinct source memories at levels with different instance counts), both binding orders
     def three_level(order, styles=("lazy", "lazy"), hbm=False):
         def fmt(t, ranks):
